@@ -1,6 +1,7 @@
 import NbdimeProofs.Lemmas.FlattenCombine
 import NbdimeProofs.Lemmas.ListRoundtrip
 import NbdimeProofs.Lemmas.DictRoundtrip
+import NbdimeProofs.Lemmas.Compat
 /-
   Assembly: the recursive round trip of the generic differ (`diff`) and `patch` over whole JSON
   documents — lists, dicts and strings, at every depth.
@@ -8,54 +9,6 @@ import NbdimeProofs.Lemmas.DictRoundtrip
 set_option linter.unusedSimpArgs false
 namespace Nbdime
 open Nbdime.Abs
-
-/-! ### membership facts for the recursive predicates -/
-
-theorem canonicalList_mem (xs : List J) (h : J.canonicalList xs = true) : ∀ x ∈ xs, x.canonical = true := by
-  induction xs with
-  | nil => intro x hx; simp at hx
-  | cons y ys ih =>
-    simp only [J.canonicalList, Bool.and_eq_true] at h
-    intro x hx
-    simp only [List.mem_cons] at hx
-    rcases hx with rfl | hx
-    · exact h.1
-    · exact ih h.2 x hx
-
-theorem intsOnlyList_mem (xs : List J) (h : J.intsOnlyList xs = true) : ∀ x ∈ xs, x.intsOnly = true := by
-  induction xs with
-  | nil => intro x hx; simp at hx
-  | cons y ys ih =>
-    simp only [J.intsOnlyList, Bool.and_eq_true] at h
-    intro x hx
-    simp only [List.mem_cons] at hx
-    rcases hx with rfl | hx
-    · exact h.1
-    · exact ih h.2 x hx
-
-theorem canonicalKvs_mem (kvs : List (String × J)) (h : J.canonicalKvs kvs = true) : ∀ p ∈ kvs, p.2.canonical = true := by
-  induction kvs with
-  | nil => intro x hx; simp at hx
-  | cons y ys ih =>
-    obtain ⟨k, v⟩ := y
-    simp only [J.canonicalKvs, Bool.and_eq_true] at h
-    intro x hx
-    simp only [List.mem_cons] at hx
-    rcases hx with rfl | hx
-    · exact h.1
-    · exact ih h.2 x hx
-
-theorem intsOnlyKvs_mem (kvs : List (String × J)) (h : J.intsOnlyKvs kvs = true) : ∀ p ∈ kvs, p.2.intsOnly = true := by
-  induction kvs with
-  | nil => intro x hx; simp at hx
-  | cons y ys ih =>
-    obtain ⟨k, v⟩ := y
-    simp only [J.intsOnlyKvs, Bool.and_eq_true] at h
-    intro x hx
-    simp only [List.mem_cons] at hx
-    rcases hx with rfl | hx
-    · exact h.1
-    · exact ih h.2 x hx
 
 /-! ### the empty diff -/
 
@@ -164,28 +117,27 @@ theorem stringsLinewise_roundtrip (O : Oracle) (hO : OracleOK O) (fuel : Nat) (s
 theorem pred_eq (O : Oracle) : O.pred "eq" = fun x y => .ok (J.pyEq x y) := by
   simp [Oracle.pred]
 
-/-- `patch(a, diff(a, b)) = b` for the generic differ, at every depth: documents whose numbers are
-    ints (no booleans / floats: finding F-eq), dict keys sorted (as the codec delivers them), and an
-    opcode oracle that satisfies difflib's contract. No other assumption on the similarity oracle. -/
+/-- `patch(a, diff(a, b)) = b` for the generic differ, at every depth: compatible documents (no boolean
+    meets a 0/1-valued number where the differ compares with `==`: finding F-eq), dict keys sorted (as the
+    codec delivers them), and an opcode oracle that satisfies difflib's contract. No other assumption on
+    the similarity oracle. -/
 theorem diffAt_generic_roundtrip (O : Oracle) (hO : OracleOK O) (fuel : Nat) :
-    ∀ (path : String) (a b : J) (d : List Op), a.canonical = true → b.canonical = true →
-      a.intsOnly = true → b.intsOnly = true →
+    ∀ (path : String) (a b : J) (d : List Op), a.canonical = true → b.canonical = true → Compat a b →
       diffAt O fuel defaultCfg .generic path a b = .ok d → patch a d = .ok b := by
   induction fuel with
-  | zero => intro path a b d _ _ _ _ h; simp [diffAt] at h
+  | zero => intro path a b d _ _ _ h; simp [diffAt] at h
   | succ f ih =>
-    intro path a b d ca cb ia ib h
+    intro path a b d ca cb hab h
     simp only [diffAt] at h
     unfold genericDiff at h
     -- sub-differ soundness from the induction hypothesis
-    have sub : ∀ (p : String) (x y : J) (cd : List Op), x.canonical = true → y.canonical = true →
-        x.intsOnly = true → y.intsOnly = true →
+    have sub : ∀ (p : String) (x y : J) (cd : List Op), x.canonical = true → y.canonical = true → Compat x y →
         diffAt O f defaultCfg (defaultCfg.differ p) p x y = .ok cd →
         PatchRel x cd y ∧ (cd = [] → x = y) := by
-      intro p x y cd cx cy ix iy hd
+      intro p x y cd cx cy hxy hd
       have hdf : defaultCfg.differ p = .generic := by simp [defaultCfg, Cfg.differ, lookupKV]
       rw [hdf] at hd
-      have hp := ih p x y cd cx cy ix iy hd
+      have hp := ih p x y cd cx cy hxy hd
       refine ⟨hp, ?_⟩
       intro hnil
       subst hnil
@@ -195,21 +147,21 @@ theorem diffAt_generic_roundtrip (O : Oracle) (hO : OracleOK O) (fuel : Nat) :
       cases b with
       | arr bl =>
         simp only at h
-        simp only [J.canonical, J.intsOnly] at ca cb ia ib
+        simp only [J.canonical] at ca cb
+        have hpairs := hab.arr_inv
         have hr := diffLists_single_roundtrip O (diffAt O f) defaultCfg path al bl "eq"
           (by simp [defaultCfg, Cfg.preds, lookupKV])
           (by
             intro i j hi hj hc
             rw [pred_eq] at hc
             simp only [Except.ok.injEq] at hc
-            exact J.pyEq_eq _ _ (intsOnlyList_mem al ia _ (List.getElem_mem hi))
-              (intsOnlyList_mem bl ib _ (List.getElem_mem hj)) hc)
+            exact compat_pyEq _ _ (hpairs _ (List.getElem_mem hi) _ (List.getElem_mem hj))
+              (canonicalList_mem al ca _ (List.getElem_mem hi)) (canonicalList_mem bl cb _ (List.getElem_mem hj)) hc)
           (by
             intro i j hi hj cd hc
             exact sub _ _ _ cd (canonicalList_mem al ca _ (List.getElem_mem hi))
               (canonicalList_mem bl cb _ (List.getElem_mem hj))
-              (intsOnlyList_mem al ia _ (List.getElem_mem hi))
-              (intsOnlyList_mem bl ib _ (List.getElem_mem hj)) hc)
+              (hpairs _ (List.getElem_mem hi) _ (List.getElem_mem hj)) hc)
           d h
         rw [patch]
         simp [hr, bind, Except.bind]
@@ -218,19 +170,19 @@ theorem diffAt_generic_roundtrip (O : Oracle) (hO : OracleOK O) (fuel : Nat) :
       cases b with
       | obj bk =>
         simp only at h
-        simp only [J.canonical, J.intsOnly, Bool.and_eq_true] at ca cb ia ib
+        simp only [J.canonical, Bool.and_eq_true] at ca cb
+        have hkeys := hab.obj_inv
         have hr := diffDicts_roundtrip (diffAt O f) defaultCfg path ak bk (keysSorted_sk ak ca.1) (keysSorted_sk bk cb.1)
           (by
             intro k av bv dd ha hb hc
             have ma := lookupKV_mem k av ak ha
             have mb := lookupKV_mem k bv bk hb
-            exact sub _ _ _ dd (canonicalKvs_mem ak ca.2 _ ma) (canonicalKvs_mem bk cb.2 _ mb)
-              (intsOnlyKvs_mem ak ia _ ma) (intsOnlyKvs_mem bk ib _ mb) hc)
+            exact sub _ _ _ dd (canonicalKvs_mem ak ca.2 _ ma) (canonicalKvs_mem bk cb.2 _ mb) (hkeys k av bv ha hb) hc)
           (by
             intro k av bv ha hb hc
             have ma := lookupKV_mem k av ak ha
             have mb := lookupKV_mem k bv bk hb
-            exact J.pyEq_eq _ _ (intsOnlyKvs_mem ak ia _ ma) (intsOnlyKvs_mem bk ib _ mb) hc)
+            exact compat_pyEq _ _ (hkeys k av bv ha hb) (canonicalKvs_mem ak ca.2 _ ma) (canonicalKvs_mem bk cb.2 _ mb) hc)
           d h
         rw [patch]
         simp [hr, bind, Except.bind]
